@@ -361,7 +361,11 @@ func (c *EvalCtx) evalSelector(n *ast.SelectorExpr) Val {
 			evalFail("no field %s in %s", n.Sel.Name, pt.Elem())
 		}
 		loc := c.X.locOf(x, pt.Elem()).Field(idx)
-		return Val{T: c.X.H.Load(c.heap(), loc), Typ: st.Field(idx).Type()}
+		v := Val{T: c.X.H.Load(c.heap(), loc), Typ: st.Field(idx).Type()}
+		if isAggregate(v.Typ) {
+			v.Loc = loc // arrays and structs in memory keep their address (for `p.arr[:]`); for pointers Loc means the pointee
+		}
+		return v
 	}
 	if st, ok := t.Underlying().(*types.Struct); ok {
 		idx := fieldIndex(st, n.Sel.Name)
@@ -369,7 +373,11 @@ func (c *EvalCtx) evalSelector(n *ast.SelectorExpr) Val {
 			evalFail("no field %s in %s", n.Sel.Name, t)
 		}
 		lo, hi := fieldRange(st, idx)
-		return Val{T: x.T[lo:hi], Typ: st.Field(idx).Type()}
+		v := Val{T: x.T[lo:hi], Typ: st.Field(idx).Type()}
+		if x.Loc != nil && isAggregate(v.Typ) {
+			v.Loc = x.Loc.Field(idx) // the field of an object in memory keeps its address (for `x.arr[:]`)
+		}
+		return v
 	}
 	evalFail("selector .%s on %s", n.Sel.Name, t)
 	return Val{}
@@ -428,6 +436,11 @@ func (c *EvalCtx) evalIndex(n *ast.IndexExpr) Val {
 
 func (c *EvalCtx) evalSlice(n *ast.SliceExpr) Val {
 	x := c.eval(n.X)
+	if at, isArr := x.Typ.Underlying().(*types.Array); isArr && x.Loc != nil && x.Loc.Root && len(x.Loc.Chain) == 0 {
+		// an array that lives in memory (a field of an object): the slice aliases it
+		n64 := BVInt(at.Len(), 64)
+		x = Val{T: []Term{x.Loc.Ref, BVInt(0, 64), n64, n64}, Typ: types.NewSlice(at.Elem())}
+	}
 	sl, ok := x.Typ.Underlying().(*types.Slice)
 	if !ok {
 		evalFail("slice expression on %s", x.Typ)
@@ -945,4 +958,12 @@ func (c *EvalCtx) convert(v Val, typ types.Type) Val {
 	}
 	evalFail("unsupported conversion from %s to %s", v.Typ, typ)
 	return Val{}
+}
+
+func isAggregate(t types.Type) bool {
+	switch t.Underlying().(type) {
+	case *types.Array, *types.Struct:
+		return true
+	}
+	return false
 }
